@@ -122,6 +122,56 @@ pub fn run(ctx: &Ctx, rep: &mut Report) {
             }
         }
     }
+    // long runs of one statement through the OS-generator entry point
+    let long: Vec<(Cfg, bool, usize)> = vec![
+        (Cfg::new(64, 1, 1, 1), true, 300),
+        (Cfg::new(32, 1, 1, 2), true, 120),
+        (Cfg::new(4, 1, 1, 1), false, 200),
+        (Cfg::new(8, 2, 2, 3), false, 120),
+        (Cfg::new(2, 1, 1, 6), true, 300),
+        (Cfg::new(16, 1, 2, 1), false, 150),
+    ];
+    for (li, (cfg, seeded, runs)) in long.into_iter().enumerate() {
+        let id = 900_000 + li;
+        if ctx.mine(id) {
+            long_run(ctx, rep, id, cfg, seeded, if ctx.thorough() { runs * 4 } else { runs });
+        }
+    }
+}
+
+/// The same statement, witness, seed and transcript proved many times on one thread through `RangeProof::prove`
+/// (operating system's generator): every RNG-derived nonce of every run is new. Catches randomness that is pooled,
+/// buffered or re-used with some period across calls.
+fn long_run(ctx: &Ctx, rep: &mut Report, id: usize, cfg: Cfg, seeded: bool, runs: usize) {
+    <FmPoint as Gx>::case_reset();
+    let mut rng = ctx.rng("c13-long", id as u64);
+    let case = Case::random(cfg, ValueClass::RandomHigh, PromiseClass::Third, seeded, &mut rng);
+    let prm = case.params();
+    let replay = json!({"tier": if ctx.thorough() {"thorough"} else {"quick"}, "seed": ctx.seed, "leg": "fm", "case": id, "descr": {"long_run": runs, "cfg": cfg.json(), "seeded": seeded}});
+    let mut seen: HashMap<[u8; 32], (usize, String)> = HashMap::new();
+    for run in 0..runs {
+        let Ok((proof, ch, _draws, _ev)) = probed_prove_from(&case, None) else {
+            rep.violation("C13 prove-failed", "RangeProof::prove failed or panicked on a valid case", replay.clone());
+            return;
+        };
+        let Some(nz) = extract(&prm, &proof, &ch) else {
+            rep.violation("C13 extraction-failed", "could not read the nonces off the proof points (challenge count or decoding)", replay.clone());
+            return;
+        };
+        rep.count("long_run_proofs", 1);
+        let fresh: Vec<(String, Scalar)> = if case.seed.is_some() { vec![("r".into(), nz.r), ("s".into(), nz.s)] } else { nz.all() };
+        for (name, x) in fresh {
+            if let Some((prev, pname)) = seen.insert(x.to_bytes(), (run, name.clone())) {
+                rep.violation(
+                    &format!("C13 nonce-repeated-across-proofs [{}] long-run seeded={seeded}", strip(&name)),
+                    &format!("proving the same statement {runs} times in a row through RangeProof::prove: nonce {name} of run {run} equals {pname} of run {prev}"),
+                    replay.clone(),
+                );
+                return;
+            }
+        }
+    }
+    rep.eval(&("long-run", cfg, seeded, runs));
 }
 
 fn one(ctx: &Ctx, rep: &mut Report, id: usize, cfg: Cfg, k: usize, global: &mut HashMap<[u8; 32], String>) {
@@ -141,6 +191,11 @@ fn one(ctx: &Ctx, rep: &mut Report, id: usize, cfg: Cfg, k: usize, global: &mut 
     let all = rng_kinds(0);
     kinds.push(Some(all[1 + k % 6].clone()));
     kinds.push(Some(all[1 + (k + 3) % 6].clone()));
+    if id % 3 == 2 {
+        // two different streams from a source whose `try_fill_bytes` reports errors while `fill_bytes` delivers
+        kinds.push(Some(RngKind::TryFails(rng.next_u64())));
+        kinds.push(Some(RngKind::TryFails(rng.next_u64())));
+    }
     if id % 3 == 1 {
         // twice through RangeProof::prove (operating system's generator): same arguments, fresh randomness each time
         kinds.push(None);
@@ -152,7 +207,10 @@ fn one(ctx: &Ctx, rep: &mut Report, id: usize, cfg: Cfg, k: usize, global: &mut 
         let (proof, ch, draws, _ev) = match probed_prove_from(&case, kind.as_ref()) {
             Ok(x) => x,
             Err(e) => {
-                rep.violation("C13 prove-failed", &format!("prover failed or panicked under external RNG {kind:?}: {e}"), replay("prove"));
+                // a prover that passes an error of the source on to its caller is within its rights
+                if !(matches!(kind, Some(RngKind::TryFails(_))) && !e.contains("panic")) {
+                    rep.violation("C13 prove-failed", &format!("prover failed or panicked under external RNG {kind:?}: {e}"), replay("prove"));
+                }
                 continue;
             },
         };
